@@ -54,8 +54,6 @@ def scen_ensure(target, ncallers, delays, durs, fails, awkind, api, prio_idx, p1
     _reset()
     target = TARGET[pick(target, 4)]
     awkind = AWKIND[pick(awkind, 3)]
-    if target == 'closed':
-        awkind = 'coro'      # nothing can be created on a closed loop; only the coroutine form is meaningful
     ncallers = pick(ncallers - 1, 2) + 1
     nth = ncallers + (1 if target == 'running' else 0)
     W = vt.World(prio=vt.permutation(nth, pick(prio_idx, [1, 1, 2, 6][nth])), preempts=[(p1, q1)], max_steps=6000, trace=not tracing())
@@ -83,7 +81,9 @@ def scen_ensure(target, ncallers, delays, durs, fails, awkind, api, prio_idx, p1
         async def main():
             if delays[i] > 0:
                 await aio.sleep(delays[i])
-            if awkind == 'coro':
+            if i in pre_aw:
+                aw = pre_aw[i]
+            elif awkind == 'coro':
                 aw = work()
             elif awkind == 'task':
                 aw = tgt.create_task(work())
@@ -119,7 +119,19 @@ def scen_ensure(target, ncallers, delays, durs, fails, awkind, api, prio_idx, p1
             await L.run_until_complete(main())
         return thread()
 
+    pre_aw = {}
     if target == 'closed':
+        # futures / tasks that belong to the target are made while it is still open (a done future for caller 0 when it does not fail)
+        for i in range(ncallers):
+            if awkind == 'future':
+                f_ = T.create_future()
+                if not fails[i]:
+                    f_.set_result(('res', i))
+                pre_aw[i] = f_
+            elif awkind == 'task':
+                async def _never(i=i):
+                    return ('res', i)
+                pre_aw[i] = T.create_task(_never())
         T.close()
     threads = []
     if target == 'running':
